@@ -22,7 +22,7 @@ for c in $CHECKS; do
   (cd /verif && VERIF_REPO=$WT timeout 1800 bin/check $c 2>&1 | tail -4)
 done
 git checkout -q -- .
-mkdir -p /verif/seeded/$P
-cp $OUT/patch.diff $OUT/meta.json /verif/seeded/$P/ 2>/dev/null
-for f in $DEMO; do cp $f /verif/seeded/$P/; done
-echo "stored in /verif/seeded/$P"
+mkdir -p /verif/seeded/${SEEDNAME:-$P}
+cp $OUT/patch.diff $OUT/meta.json /verif/seeded/${SEEDNAME:-$P}/ 2>/dev/null
+for f in $DEMO; do cp $f /verif/seeded/${SEEDNAME:-$P}/; done
+echo "stored in /verif/seeded/${SEEDNAME:-$P}"
